@@ -82,6 +82,11 @@ def scenarios(quick: bool) -> list[tuple[dict, int]]:
             for to in (0.5001, 20.0):
                 p = {"qos_mode": False, "callers": [caller(cmd, timeout=to), caller("rq30c9_02", timeout=to)], "dev": ("disc", "drop", "late"), "disc_err": err}
                 sc.append((p, 2))
+    # writing is paused when the call is made (an MQTT gateway that is offline), and may be resumed at any later moment
+    for to in (0.25, 0.5001, 1.5001, 20.0):
+        for n in (1, 2):
+            p = {"qos_mode": False, "paused_at_start": True, "callers": [caller(f"rq30c9_0{i + 1}", timeout=to) for i in range(n)], "dev": ("pause", "drop", "late", "call")}
+            sc.append((p, 2))
     # one QosParams object handed to send_cmd for several commands (an application keeping its 'await the reply' settings): what the
     # gateway's QoS mode does for one command must not change what the next one gets
     for mode in (None, False, True):
